@@ -1,8 +1,8 @@
 //go:build verif
 
-// Contracts for package compactindex (legacy 8-byte-value format; comment-only; read by /verif/vcgo, build tag verif).
+// Contracts for package compactindex36 (legacy 36-byte-value format; comment-only; read by /verif/vcgo, build tag verif).
 // Adapted from compactindexsized/contracts_verif.go.
-package compactindex
+package compactindex36
 
 //@ spec func le32p(b *[16]byte, o int) uint32 = uint32(b[o]) + uint32(b[o+1])*256 + uint32(b[o+2])*65536 + uint32(b[o+3])*16777216
 //@ spec func le48p(b *[16]byte, o int) uint64 = uint64(b[o]) + uint64(b[o+1])*256 + uint64(b[o+2])*65536 + uint64(b[o+3])*16777216 + uint64(b[o+4])*4294967296 + uint64(b[o+5])*1099511627776
@@ -11,15 +11,10 @@ package compactindex
 
 // ---- little-endian helpers ----
 
-// intWidth: the body is bits.LeadingZeros64 (external, not modelled by vcgo: result arbitrary) plus one division, so the
-// contract is trusted (without `trusted` the three post obligations are `sat` only because of the unmodelled call).
-//@ func intWidth
+//@ func valueLength
 //@   mode bv
 //@   pure
-//@   trusted
-//@   ensures result <= 8
-//@   ensures result < 8 ==> n >> (8*uint(result)) == 0
-//@   ensures result > 0 ==> n >> (8*(uint(result)-1)) != 0
+//@   ensures result == 36
 
 //@ func uintLe
 //@   mode bv
@@ -30,7 +25,7 @@ package compactindex
 //@   modifies buf
 //@   ensures forall i int :: 0 <= i && i < 8 ==> (i < len(buf) ==> buf[i] == byte(x >> (8*uint(i))))
 //@   ensures forall i int :: 8 <= i && i < len(buf) ==> buf[i] == old(buf[i])
-//@   ensures result == (int(intWidth(x)) <= len(buf))
+//@   ensures result == (36 <= len(buf))
 
 //@ func hashUint64
 //@   mode bv
@@ -96,30 +91,30 @@ package compactindex
 //@   requires b != nil
 //@   ensures b.HashLen == 3 ==> result < 16777216
 
-// ---- entry codec (Hash: HashLen bytes LE, Value: OffsetWidth bytes LE) ----
+// ---- entry codec (Hash: HashLen bytes LE, Value: OffsetWidth raw bytes, at most 36) ----
 
 //@ func (*BucketDescriptor) unmarshalEntry
 //@   mode bv
 //@   requires b != nil
-//@   requires int(b.HashLen) + int(b.OffsetWidth) <= 255 && int(b.HashLen) <= 8 && int(b.OffsetWidth) <= 8 && len(buf) >= int(b.HashLen) + int(b.OffsetWidth)
+//@   requires int(b.HashLen) + int(b.OffsetWidth) <= 255 && int(b.HashLen) <= 8 && len(buf) >= int(b.HashLen) + int(b.OffsetWidth)
 //@   ensures forall i int :: 0 <= i && i < 8 ==> byte(e.Hash >> (8*uint(i))) == ite(i < int(b.HashLen), buf[i], 0)
-//@   ensures forall j int :: 0 <= j && j < 8 ==> byte(e.Value >> (8*uint(j))) == ite(j < int(b.OffsetWidth), buf[int(b.HashLen)+j], 0)
+//@   ensures forall j int :: 0 <= j && j < 36 ==> e.Value[j] == ite(j < int(b.OffsetWidth), buf[int(b.HashLen)+j], 0)
 
 //@ func (*BucketDescriptor) marshalEntry
 //@   mode bv
 //@   requires b != nil
-//@   requires int(b.HashLen) + int(b.OffsetWidth) <= 255 && int(b.HashLen) <= 8 && int(b.OffsetWidth) <= 8 && int(b.Stride) == int(b.HashLen) + int(b.OffsetWidth)
+//@   requires int(b.HashLen) + int(b.OffsetWidth) <= 255 && int(b.HashLen) <= 8 && int(b.Stride) == int(b.HashLen) + int(b.OffsetWidth)
 //@   panics len(buf) < int(b.Stride)
 //@   modifies buf
 //@   ensures forall i int :: 0 <= i && i < 8 ==> (i < int(b.HashLen) ==> buf[i] == byte(e.Hash >> (8*uint(i))))
-//@   ensures forall j int :: 0 <= j && j < 8 ==> (j < int(b.OffsetWidth) ==> buf[int(b.HashLen)+j] == byte(e.Value >> (8*uint(j))))
+//@   ensures forall j int :: 0 <= j && j < int(b.OffsetWidth) && j < 36 ==> buf[int(b.HashLen)+j] == e.Value[j]
 
 // ---- stride / offsets ----
 
 //@ func (*DB) entryStride
 //@   mode int
 //@   requires db != nil
-//@   ensures int(result) == 3 + int(intWidth(db.Header.FileSize))
+//@   ensures int(result) == 39
 
 //@ func bucketOffset
 //@   mode int
@@ -131,6 +126,7 @@ package compactindex
 //@   ensures result <= a && result <= b && (result == a || result == b)
 
 // ---- search over the eytzinger layout ----
+// (`result1 != nil ==> result0 == Empty` is not stated: vcgo gives every read of the package variable Empty a fresh value.)
 // H(t) below is res0(getter, t-1).Hash: the hash stored in node t (1-based) of the implicit tree.
 
 //@ func searchEytzinger
@@ -143,7 +139,6 @@ package compactindex
 //@   ensures result1 == nil ==> exists t int :: 0 <= t && t < max && res1(getter, t) == nil && res0(getter, t).Hash == x && result0 == res0(getter, t).Value
 //@   ensures result1 == ErrNotFound ==> forall t int :: 0 <= t && t < max ==> res0(getter, t).Hash != x
 //@   ensures result1 != nil && result1 != ErrNotFound ==> exists t int :: 0 <= t && t < max && res1(getter, t) == result1
-//@   ensures result1 != nil ==> result0 == 0
 //@   use forall t int :: ancRoot(t)
 //@   loop 0 invariant 0 <= index
 //@   loop 0 invariant forall t int :: 1 <= t && t <= max && res0(getter, t-1).Hash == x ==> anc(t, index+1)
@@ -168,10 +163,10 @@ package compactindex
 //@ func (*Bucket) loadEntry
 //@   mode int
 //@   requires b != nil && b.Entries != nil && 0 <= i && i <= 4294967296
-//@   requires b.HashLen == 3 && int(b.OffsetWidth) <= 8 && int(b.Stride) == 3 + int(b.OffsetWidth)
+//@   requires b.HashLen == 3 && int(b.OffsetWidth) <= 252 && int(b.Stride) == 3 + int(b.OffsetWidth)
 //@   ensures result1 == nil ==> (i+1)*int(b.Stride) <= fsize(b.Entries)
 //@   ensures result1 == nil ==> forall j int :: 0 <= j && j < 8 ==> byte(result0.Hash >> (8*uint(j))) == ite(j < 3, fbyte(b.Entries, i*int(b.Stride)+j), 0)
-//@   ensures result1 == nil ==> forall j int :: 0 <= j && j < 8 ==> byte(result0.Value >> (8*uint(j))) == ite(j < int(b.OffsetWidth), fbyte(b.Entries, i*int(b.Stride)+3+j), 0)
+//@   ensures result1 == nil ==> forall j int :: 0 <= j && j < 36 ==> result0.Value[j] == ite(j < int(b.OffsetWidth), fbyte(b.Entries, i*int(b.Stride)+3+j), 0)
 //@   ensures result1 != nil ==> result1 != ErrNotFound
 
 // The getter handed to searchEytzinger is b.loadEntry, called for indices below NumEntries: its preconditions are
@@ -179,7 +174,7 @@ package compactindex
 //@ func (*Bucket) binarySearch
 //@   mode int
 //@   requires b != nil && b.Entries != nil
-//@   requires int(b.OffsetWidth) <= 8 && int(b.Stride) == 3 + int(b.OffsetWidth)
+//@   requires int(b.OffsetWidth) <= 252 && int(b.Stride) == 3 + int(b.OffsetWidth)
 //@   requires b.HashLen == 3
 //@   requires forall t int :: 0 <= t && t < int(b.NumEntries) ==> res1(b.loadEntry, t) != ErrNotFound
 //@   requires forall j, k int :: 1 <= k && k <= int(b.NumEntries) && 1 <= j && j <= int(b.NumEntries) && anc(j, 2*k) ==> res0(b.loadEntry, j-1).Hash < res0(b.loadEntry, k-1).Hash
@@ -187,19 +182,17 @@ package compactindex
 //@   ensures result1 == nil ==> exists t int :: 0 <= t && t < int(b.NumEntries) && res1(b.loadEntry, t) == nil && res0(b.loadEntry, t).Hash == target && result0 == res0(b.loadEntry, t).Value
 //@   ensures result1 == ErrNotFound ==> forall t int :: 0 <= t && t < int(b.NumEntries) ==> res0(b.loadEntry, t).Hash != target
 //@   ensures result1 != nil && result1 != ErrNotFound ==> exists t int :: 0 <= t && t < int(b.NumEntries) && res1(b.loadEntry, t) == result1
-//@   ensures result1 != nil ==> result0 == 0
 
 //@ func (*Bucket) Lookup
 //@   mode int
 //@   requires b != nil && b.Entries != nil
-//@   requires int(b.OffsetWidth) <= 8 && int(b.Stride) == 3 + int(b.OffsetWidth)
+//@   requires int(b.OffsetWidth) <= 252 && int(b.Stride) == 3 + int(b.OffsetWidth)
 //@   requires b.HashLen == 3
 //@   requires forall t int :: 0 <= t && t < int(b.NumEntries) ==> res1(b.loadEntry, t) != ErrNotFound
 //@   requires forall j, k int :: 1 <= k && k <= int(b.NumEntries) && 1 <= j && j <= int(b.NumEntries) && anc(j, 2*k) ==> res0(b.loadEntry, j-1).Hash < res0(b.loadEntry, k-1).Hash
 //@   requires forall j, k int :: 1 <= k && k <= int(b.NumEntries) && 1 <= j && j <= int(b.NumEntries) && anc(j, 2*k+1) ==> res0(b.loadEntry, j-1).Hash > res0(b.loadEntry, k-1).Hash
 //@   ensures result1 == nil ==> exists t int :: 0 <= t && t < int(b.NumEntries) && res1(b.loadEntry, t) == nil && result0 == res0(b.loadEntry, t).Value
 //@   ensures result1 != nil && result1 != ErrNotFound ==> exists t int :: 0 <= t && t < int(b.NumEntries) && res1(b.loadEntry, t) == result1
-//@   ensures result1 != nil ==> result0 == 0
 
 // ---- reader handle ----
 
@@ -216,7 +209,7 @@ package compactindex
 //@   mode int
 //@   requires validDB(db)
 //@   ensures result1 == nil ==> result0 != nil && fresh(result0) && result0.Entries != nil
-//@   ensures result1 == nil ==> result0.OffsetWidth == intWidth(db.Header.FileSize) && int(result0.Stride) == 3 + int(result0.OffsetWidth) && int(result0.OffsetWidth) <= 8
+//@   ensures result1 == nil ==> result0.OffsetWidth == 36 && int(result0.Stride) == 39
 //@   ensures result1 == nil ==> result0.HashLen == fbyte(db.Stream, 32 + int64(i)*16 + 8)
 //@   ensures result1 != nil ==> result1 != ErrNotFound
 
@@ -224,7 +217,7 @@ package compactindex
 //@   mode int
 //@   requires validDB(db)
 //@   ensures result1 == nil ==> result0 != nil && fresh(result0) && result0.Entries != nil
-//@   ensures result1 == nil ==> result0.OffsetWidth == intWidth(db.Header.FileSize) && int(result0.Stride) == 3 + int(result0.OffsetWidth) && int(result0.OffsetWidth) <= 8
+//@   ensures result1 == nil ==> result0.OffsetWidth == 36 && int(result0.Stride) == 39
 //@   ensures result1 != nil ==> result1 != ErrNotFound
 
 // Top-level query. No precondition beyond a handle returned by Open: the failing `pre` obligations of this function are
@@ -233,7 +226,6 @@ package compactindex
 //@ func (*DB) Lookup
 //@   mode int
 //@   requires validDB(db)
-//@   ensures result1 != nil ==> result0 == 0
 
 // ---- builder ----
 
@@ -250,14 +242,14 @@ package compactindex
 //@   loop 0 invariant forall k int :: 0 <= k && k < rangeidx0 ==> buckets[k].writer != nil
 //@   loop 0 invariant forall k int :: 0 <= k && k < len(buckets) ==> buckets[k].records == 0
 
-// Spill tuple: le16(len key) ++ le64(value) ++ key. A key longer than 65535 bytes cannot be represented.
+// Spill tuple: le16(len key) ++ value[0:36] ++ key. A key longer than 65535 bytes cannot be represented.
 //@ func (*tempBucket) writeTuple
 //@   mode int
 //@   requires b != nil && b.writer != nil
 //@   requires len(key) <= 65535
 //@   modifies b, written(b.writer)
 //@   ensures b.records == old(b.records) + 1
-//@   ensures err == nil ==> written(b.writer) == old(written(b.writer)) + 10 + len(key)
+//@   ensures err == nil ==> written(b.writer) == old(written(b.writer)) + 38 + len(key)
 
 // Property: unsupported sizes must be an error, so result == nil has to imply a representable key and value.
 //@ func (*Builder) Insert
@@ -266,7 +258,6 @@ package compactindex
 //@   requires forall k int :: 0 <= k && k < len(b.buckets) ==> b.buckets[k].writer != nil
 //@   modifies all
 //@   ensures result == nil ==> len(key) <= 65535
-//@   ensures result == nil ==> int(intWidth(value)) <= int(intWidth(b.Header.FileSize))
 
 //@ func (*tempBucket) flush
 //@   mode int
@@ -274,7 +265,7 @@ package compactindex
 //@   modifies b
 //@   ensures result == nil ==> b.writer == nil && b.records == old(b.records) && b.file == old(b.file)
 
-// hashBucket: reads len(entries) tuples (10 static bytes + key), masks the hash to 24 bits, detects collisions in a 2^24-bit
+// hashBucket: reads len(entries) tuples (38 static bytes + key), masks the hash to 24 bits, detects collisions in a 2^24-bit
 // bitmap, then sorts into eytzinger order. sortWithCompare hands a closure to sort.Slice (not modelled for closures that
 // call another closure), so nothing is known about the order afterwards.
 //@ func hashBucket
@@ -303,7 +294,7 @@ package compactindex
 //@   modifies b.buckets, consumed(b.buckets[i].file), written(b.buckets[i].file), consumed(f), written(f)
 //@   ensures ref(b.buckets) == old(ref(b.buckets)) && len(b.buckets) == old(len(b.buckets))
 //@   ensures forall k int :: 0 <= k && k < len(b.buckets) && k != i ==> b.buckets[k] == old(b.buckets[k])
-//@   loop 0 invariant desc.HashLen == 3 && int(desc.OffsetWidth) <= 8 && int(desc.Stride) == 3 + int(desc.OffsetWidth) && len(entryBuf) == int(desc.Stride)
+//@   loop 0 invariant desc.HashLen == 3 && int(desc.OffsetWidth) == 36 && int(desc.Stride) == 39 && len(entryBuf) == int(desc.Stride)
 //@   loop 0 invariant wr != nil && f != nil && 0 <= i && i <= 4294967296
 
 //@ func (*Builder) Seal
@@ -344,7 +335,7 @@ package compactindex
 //@ func (*Bucket) Load
 //@   mode int
 //@   requires b != nil && b.Entries != nil && batchSize <= 1048576
-//@   requires b.HashLen == 3 && int(b.OffsetWidth) <= 8 && int(b.Stride) == 3 + int(b.OffsetWidth)
+//@   requires b.HashLen == 3 && int(b.OffsetWidth) <= 252 && int(b.Stride) == 3 + int(b.OffsetWidth)
 //@   ensures result1 != nil ==> result0 == nil
 //@   loop 0 invariant len(buf) == batchSize*stride && stride == int(b.Stride) && batchSize >= 1
 //@   loop 1 invariant len(buf) == batchSize*stride && stride == int(b.Stride) && batchSize >= 1 && len(sub) <= len(buf)
